@@ -44,6 +44,8 @@ std::string errkind(const std::exception &e) {
         return "E_inv";
     if (w.find("extraction failed") != std::string::npos)
         return "E_ext";
+    if (w.find("number too long") != std::string::npos)
+        return "E_long";
     if (w.find("line not fully consumed") != std::string::npos)
         return "E_line";
     return "E_read";
